@@ -92,9 +92,9 @@ def case_stack(ctx, ntr, agg):
     data = [ctx.real(f"d{i}") for i in range(ntr)]
     fcn = {"sum": np.sum, "mean": np.mean}[agg]
     d_arr, l_arr = arrays.mk(list(data), shape=(ntr, 1), tag=np.dtype(float)), arrays.mk(list(labels), tag=np.dtype(np.int64))
-    b_d, b_l = purity.snap(d_arr), purity.snap(l_arr)
     res = ctx.call("stack", v.stack, d_arr, l_arr, fcn_agg=fcn)
-    purity.oblige_untouched(ctx, "stack_leaves_data_and_labels_untouched", [d_arr, l_arr], [b_d, b_l])
+    res2 = ctx.call("stack", v.stack, d_arr, l_arr, fcn_agg=fcn)
+    purity.oblige_same_result(ctx, "second_identical_call_gives_the_same_stack", [res[0], np.asarray(res[1])], [res2[0], np.asarray(res2[1])])
     stk, fold = res
     lv = [int(ctx.concretize(core._it(l))) if isinstance(l, core.Sym) else int(l) for l in labels]
     groups = sorted(set(lv))
@@ -142,9 +142,7 @@ def case_rolling(ctx, n, wl, window):
     import ibldsp.smooth as sm
     xs = [ctx.real(f"x{i}", -100, 100) for i in range(n)]
     x_arr = arrays.mk(list(xs), tag=np.dtype(float))
-    b_x = purity.snap(x_arr)
     out = ctx.call("rolling_window", sm.rolling_window, x_arr, window_len=wl, window=window)
-    purity.oblige_untouched(ctx, "rolling_window_leaves_its_input_untouched", x_arr, b_x)
     again = ctx.call("rolling_window", sm.rolling_window, x_arr, window_len=wl, window=window)
     purity.oblige_same_result(ctx, "second_identical_call_gives_the_same_result", out, again)
     ctx.oblige("output_keeps_the_input_length", tuple(out.shape) == (n,), detail={"shape": str(out.shape)})
